@@ -80,6 +80,25 @@ class C11Commands(Oracle):
             # one invocation (engine instance id = run-log item id) is carried out by one command object: a request that
             # is initialized a second time under the same id has started its command again from the beginning
             iid = ev[6] if len(ev) > 6 else ""
+            d["iid"] = iid
+            # "a new request first cancels the older instance": when two invocations of one command are initialized in the
+            # same tick, the one that replaces the other is the newer request (invocation ids are issued in request order)
+            try:
+                mine = int(iid.replace("-", ""), 16) if iid else None
+            except ValueError:
+                mine = None
+            if mine is not None:
+                for other, od in self.inst.items():
+                    if other == inst or od["name"] != name or od.get("init_tick") != tick or od["fin"] == 0 or not od.get("iid"):
+                        continue
+                    try:
+                        theirs = int(od["iid"].replace("-", ""), 16)
+                    except ValueError:
+                        continue
+                    if theirs > mine:
+                        self.v("C11", "C11.older_request_replaced_newer" + self.w.ctx(), name,
+                               f"tick {tick}: invocation {od['iid'][-4:]} of {name} (the newer request) was initialized and "
+                               f"finalized, then invocation {iid[-4:]} (the older request) was initialized in its place")
             if iid:
                 prev = self.by_iid.setdefault(iid, inst)
                 if prev != inst:
